@@ -10,6 +10,7 @@ Contract (see DESIGN.md 2.2):
   exit 2 = harness error / inconclusive (never a violation).
 """
 
+import base64
 import collections
 import hashlib
 import importlib
@@ -316,6 +317,8 @@ def tick():
 def _worker(args):
     modname, task, tier, seed = args
     os.environ.setdefault('PYTHONHASHSEED', '0')
+    if task.get('python_O') and not sys.flags.optimize:
+        return _worker_optimised(modname, task, tier, seed)
     trace = os.environ.get('VERIF_TRACE')
     t0 = time.time()
     if trace:
@@ -332,6 +335,45 @@ def _worker(args):
         return {'evaluations': 0, 'nontrivial': [], 'classes': {}, 'samples': [],
                 'violations': [], 'hyp_examples': 0, 'extra': {},
                 'error': f'task {task!r}\n' + ''.join(traceback.format_exception(type(e), e, e.__traceback__))}
+
+
+def _worker_optimised(modname, task, tier, seed):
+    """Run the task in a child interpreter started with -O (asserts stripped, __debug__ False).
+
+    The library's results may not depend on the interpreter's optimisation mode; the check bodies use ctx.check,
+    not assert, so they judge the library there exactly as here."""
+    import subprocess
+    cmd = [sys.executable, '-O', os.path.join(VERIF, 'run_check.py'), modname.rsplit('.', 1)[1].upper(), '--tier', tier,
+           '--worker-task', json.dumps([modname, task, tier, seed])]
+    env = dict(os.environ, PYTHONHASHSEED='0', VERIF_SEED=str(seed), PYTHONDONTWRITEBYTECODE='1')
+    p = subprocess.run(cmd, cwd=VERIF, env=env, capture_output=True)
+    marker = p.stdout.rfind(b'@@RESULT@@')
+    if marker < 0:
+        return _error_result(f'task {task!r}: python -O child gave no result (exit {p.returncode}): '
+                             + p.stderr.decode('utf-8', 'replace')[-1500:])
+    res = pickle.loads(base64.b64decode(p.stdout[marker + len(b'@@RESULT@@'):].strip()))
+    for v in res['violations']:
+        v['python_O'] = True
+        v['message'] = '[under python -O] ' + v['message']
+    res['extra'] = dict(res['extra'], python_O_tasks=1, python_O_evaluations=res['evaluations'])
+    return res
+
+
+def optimised_copies(tasks):
+    """Up to two cheap tasks of the plan, to be repeated under ``python -O``."""
+    out = []
+    hyp = [t for t in tasks if t.get('kind') == 'hyp' and t.get('profile') in (None, 'small')]
+    other = [t for t in tasks if t.get('kind') != 'hyp']
+    if other and other[-1].get('kind') == 'exhaustive':
+        other = [other[len(other) // 2]]   # a middling block of tables rather than the 1x1 shape
+    for t in (hyp[-1:] + other[-1:]) or tasks[-1:]:
+        t2 = dict(t, python_O=True)
+        if 'examples' in t2:
+            t2['examples'] = min(t2['examples'], 60)
+        if 'seed' in t2:
+            t2['seed'] = t2['seed'] + 7777
+        out.append(t2)
+    return out
 
 
 def _child(conn, args):
@@ -435,7 +477,8 @@ def write_replay(prop, viol, tier, seed):
     d = os.path.join(VERIF, 'replays', prop)
     os.makedirs(d, exist_ok=True)
     blob = json.dumps({'property': prop, 'site': viol['site'], 'case': viol['case'],
-                       'message': viol['message'], 'tier': tier, 'seed': seed},
+                       'message': viol['message'], 'tier': tier, 'seed': seed,
+                       **({'python_O': True} if viol.get('python_O') else {})},
                       indent=1, sort_keys=True, default=str)
     name = hashlib.sha1(json.dumps([viol['site'], viol['case']], sort_keys=True,
                                    default=str).encode()).hexdigest()[:16] + '.json'
@@ -448,6 +491,18 @@ def write_replay(prop, viol, tier, seed):
 def run_replay(module, path):
     bootstrap()
     doc = json.load(open(path, encoding='utf-8'))
+    if doc.get('python_O') and not sys.flags.optimize:
+        import subprocess
+        p = subprocess.run([sys.executable, '-O', os.path.join(VERIF, 'run_check.py'), doc['property'], '--replay', path],
+                           cwd=VERIF, env=dict(os.environ, PYTHONHASHSEED='0'), capture_output=True, text=True)
+        ctx = Ctx(module.PROPERTY, {'kind': 'replay'}, 'quick', int(doc.get('seed') or 0))
+        if p.returncode == 1:
+            ctx.violations.append({'site': doc['site'], 'case': doc['case'],
+                                   'message': '[under python -O] ' + ' | '.join(l.strip() for l in p.stdout.splitlines()
+                                                                                if l.startswith('  '))})
+        elif p.returncode != 0:
+            raise HarnessError('python -O replay failed: ' + p.stdout[-800:] + p.stderr[-800:])
+        return p.returncode == 0, ctx
     ctx = Ctx(module.PROPERTY, {'kind': 'replay'}, 'quick', int(doc.get('seed') or 0))
     ok = ctx.guarded(module.replay, doc['case'], ctx)
     return ok, ctx
@@ -461,7 +516,12 @@ def main(argv=None):
     ap.add_argument('--replay')
     ap.add_argument('--jobs', type=int, default=int(os.environ.get('VERIF_JOBS', '16')))
     ap.add_argument('--no-evidence', action='store_true')
+    ap.add_argument('--worker-task', help=argparse.SUPPRESS)   # internal: run one task in this interpreter, pickle the result
     args = ap.parse_args(argv)
+    if args.worker_task:
+        res = _worker(tuple(json.loads(args.worker_task)))
+        sys.stdout.buffer.write(b'\n@@RESULT@@' + base64.b64encode(pickle.dumps(res)) + b'\n')
+        return 0
 
     prop = args.property.upper()
     seed = int(os.environ.get('VERIF_SEED', '1') or 1)
@@ -529,6 +589,7 @@ def main(argv=None):
 
     # 2. generated search
     tasks = module.plan(tier, seed)
+    tasks = tasks + optimised_copies(tasks)
     merged = {'evaluations': 0, 'nontrivial': set(), 'classes': collections.Counter(),
               'samples': [], 'hyp_examples': 0, 'extra': collections.Counter()}
     work = [(modname, t, tier, seed) for t in tasks]
